@@ -12,6 +12,14 @@ import (
 var dbgTests int
 
 func bench() {
+	if os.Getenv("VERIF_C01_CORPUS_PARSE") != "" {
+		for _, f := range corpusFiles() {
+			b, _ := os.ReadFile(repoRoot() + "/" + f)
+			r := parseOnly(string(b), 1, 50_000_000)
+			fmt.Println(f, r.Kind, r.PanicKey, r.Line)
+		}
+		os.Exit(0)
+	}
 	if file := os.Getenv("VERIF_C01_SEQ"); file != "" {
 		var from, to int
 		fmt.Sscan(os.Getenv("VERIF_C01_SEQ_RANGE"), &from, &to)
